@@ -1,34 +1,37 @@
 """C01 — no byte stream can crash a terminal emulation (DESIGN.md section 7 C01, Appendix A).
-PARTIAL only in the sense that one class stays a known finding (unbounded macro recursion) and that time/memory are C03's."""
+No known class is left (the unbounded macro recursion is repaired: MAX_MACRO_NESTING, fix 2513579); time/memory are C03's."""
 import os, re, base64, struct
 from props import termgen as tg
 
 ID = 'C01'
-GENERATORS = ['gen_font']     # Model/AnsiTok.v loads `CTerm:Font:` strings with C17's Model/Font.v, which needs Gen/FontConsts.v
+GENERATORS = ['gen_font',     # Model/AnsiTok.v loads `CTerm:Font:` strings with C17's Model/Font.v, which needs Gen/FontConsts.v
+              'gen_macro']    # Gen/MacroLimit.v: MAX_MACRO_NESTING read from src/parsers/ansi/mod.rs; pins the counter discipline of invoke_macro_by_id
 COQ_TARGETS = ['Props/C01.vo', 'Run/RunC09.vo', 'Run/RunC01.vo']
 PROPS_MODULE = 'Props.C01'
 THEOREMS = ['c01_standalone', 'c01_ansi_char_partial', 'c01_stream_partial', 'c01_ansi_stream_partial', 'core_ops_never_panic',
-            'c01_ansi_char', 'c01_wrappers', 'c01_wrappers_no_panic', 'c01_wrappers_state', 'c01_petscii', 'c01_no_emulation_panics', 'macro_bound_is_only_a_bound']
+            'c01_ansi_char', 'c01_wrappers', 'c01_wrappers_no_panic', 'c01_wrappers_state', 'c01_petscii', 'c01_no_emulation_panics', 'c01_every_stream_ends',
+            'macro_limit_only_cuts', 'macro_recursion_reaches_every_limit']
 SWEEP_LEMMAS = []
 TRUSTED = ['Coq 8.16.1 kernel + vm_compute; no axioms (Print Assumptions: closed)',
            'hand-written models Model/TermCore.v, AnsiTok.v, Emu.v (shared with C09) and Model/Petscii.v, tied to the Rust source by differential runs: outcome class of every character, final geometry; '
            'for states after a resize, macro replay and PETSCII the full C09 observation (18 values) after EVERY character',
            'Model/Font.v (C17: load_custom_font, BitFont::from_bytes) reused for the CTerm:Font DCS; Model/Base64.v = decoder of the external crate base64 0.22 (STANDARD), tied by stage C on valid / truncated / badly padded / non-canonical / non-alphabet payloads',
            'harness/src/c01.rs + the worker protocol of vlib/driver.py (panic location, abort / stack overflow / timeout / OOM classification)']
-UNMODELLED = ['unbounded macro recursion: known class (model: Diverge beyond MACRO_FUEL); the theorems show it is the ONLY way a stream can fail to end in a state, and only while a macro is stored',
-              'a macro nesting deeper than MACRO_FUEL = 32 that terminates in the real code is Diverge in the model (c01_ansi_char holds for every nesting bound, the stream theorems use 32)',
+UNMODELLED = ['the nesting counter Parser::macro_nesting is not a field of the model state: it is the structural recursion depth of astep (fuel = MAX_MACRO_NESTING - counter); that it is 0 whenever '
+              'print_char is entered from outside (one increment, one decrement, no early exit between them, no other writer) is pinned token by token by translator/gen_macro.py, not proved',
+              'the stack need of one nesting level (measured: 10.4 KiB in the dev profile, see the fix commit) is outside the model; gen_macro.py refuses a limit whose 16 KiB-per-level budget exceeds 1 MiB',
               'sixel decoding (runs in a thread, C14) and Buffer::update_sixel_threads, OSC 4 palette regex (accepted without evaluation), DECRQCRA checksum value, SendString/PlayMusic payloads, '
               'font tables (of a font loaded by DCS only the slot number is kept; the built-in slots 0..=42 are a constant of the model)',
               'PETSCII: font page of a cell, foreground colour, underline_mode / c_shift (written, never read) are outside the cell projection (code, background)',
               'the application-side reaction to CallbackAction::ResizeTerminal (the parser only changes TerminalState.size; the harness, like the model, leaves Buffer / Layer size alone)',
               'time and memory (C03): loop counts are not bounded by the theorems; the generators keep repeat counts of REP/SU/SD/IL/DL/ICH/DCH/SL/SR/CVT/CBT/CUU small']
-ASSUMPTIONS = ['row counters stay below 2^31 (see C09)', 'bytes are fed as `b as char`', 'MACRO_FUEL = 32 bounds the modelled macro nesting']
+ASSUMPTIONS = ['row counters stay below 2^31 (see C09)', 'bytes are fed as `b as char`']
 RULE = ('character-level streams: (1) token streams over the C09 alphabet plus resize, DCS (text/hex macro definition, invocation, nested and self invocation, sixel hand-off, '
         'CTerm:Font strings with PSF1/PSF2/raw fonts and perturbed base64, unknown), font selection of loaded / empty slots, DECFRA with scalar and non-scalar fill characters, OSC 4/8 (open/close/unbalanced), APS, music strings (all seven MusicStates, overflowing lengths) for every music option; (2) malformed streams of raw bytes biased to the bytes '
         'that drive the state machines, with huge numbers; all ten emulations, sizes 1..=132 x 1..=60; the ledger inputs as regression cases. Stage C compares per stream the number of '
         'actions, of error values, the index of the first error and the final geometry (or the panic site class). Stage S: any panic/abort/stack overflow/timeout/OOM of the worker is a failure '
         'with signature C01-<class>:<function> (panic location mapped to the enclosing fn). Extension area (per-character observation): (3) set-up + resize to a smaller / larger / extreme size + tokens of the whole alphabet, '
-        '(4) hex / text macros whose bodies resize, move, edit, define and invoke lower macros (bounded nesting; sometimes themselves: both sides must report the overflow), invoked from the stream, inside a DCS, and by the Avatar repeat, '
+        '(4) hex / text macros whose bodies resize, move, edit, define and invoke macros (lower ones, themselves, each other: cycles end in the error MacroNestingTooDeep on both sides, with the same state after every character), invoked from the stream, inside a DCS, and by the Avatar repeat; chains of 15..18 macros around the limit MAX_MACRO_NESTING, self-invocation with fan-out, '
         'through all five ANSI-based emulations, (5) PETSCII byte streams incl. every byte after reverse-on and every byte after ESC. non-trivial = stream produced at least one error value or moved the cursor')
 MODEL_IMPORTS = 'From IE Require Import Run.RunC09 Run.RunC01.\nLocal Open Scope Z_scope.'
 E = tg.E
@@ -170,7 +173,8 @@ def macro_stream(rng, emu, w, h):
         body = rng.choice(MACRO_BODIES)
         if rng.random() < 0.4: body += b''.join(rng.choice(toks)[1] for _ in range(rng.choice([1, 3])))
         if i > 1 and rng.random() < 0.6: body += E + b'[%d*z' % rng.randrange(1, i)          # a lower macro: bounded nesting
-        if rng.random() < 0.06: body += E + b'[%d*z' % i                                        # itself: the known class (both sides must say so)
+        if rng.random() < 0.12: body += E + b'[%d*z' % i + rng.choice([b'', b'Z', E + b'[%d*z' % i])   # itself (the former known class): ends in MacroNestingTooDeep, nothing after it is replayed
+        if rng.random() < 0.12: body += E + b'[%d*z' % rng.randrange(1, nm + 1) + rng.choice([b'', b'Y'])   # any macro, also a higher one: cycles
         rep = rng.random()
         if rep < 0.2: out.append(E + b'P%d;0;1!z' % i + b'!%d;' % rng.choice([0, 2, 3]) + body.hex().upper().encode() + b';' + E + b'\\')
         elif rep < 0.3: out.append(E + b'P%d;0;0!z' % i + bytes(c for c in body if c != 0x1b) + E + b'\\')       # text form
@@ -205,14 +209,17 @@ def term_cases(ctx):
     meta.append((6, 0, 40, 25, b''.join(bytes([0x12, c]) for c in range(256) if c not in (0x1b, 0x93)), ['petscii-reverse-all']))
     meta.append((6, 0, 40, 25, b'AB\rCD\r' + b''.join(bytes([0x1b, c]) for c in range(256)), ['petscii-escape-all']))
     meta.append((6, 0, 10, 4, b'\r' * 9 + b'\x8eAB\x0e\x8e\x8e\x93\x0e', ['petscii-shift']))
-    # directed: the known class through every wrapper (both sides must report the nesting overflow), a chain of depth 6 (both sides a state),
-    # a macro that resizes to 1 x 1 and then edits lines far outside the new screen
+    # directed: the former known class through every wrapper (both sides: one error value, same states), a chain of depth 6,
+    # a macro that resizes to 1 x 1 and then edits lines far outside the new screen; chains around the nesting limit; recursion with fan-out,
+    # mutual recursion, recursion through an invocation inside a DCS string
     chain = b''.join(hexmacro(i, (b'<%d>' % i) + (E + b'[%d*z' % (i - 1) if i > 1 else b'\n')) for i in range(1, 7)) + E + b'[6*z'
     far = b'\n' * 30 + E + b'[2;20r' + E + b'[79C' + hexmacro(1, E + b'[8;1;1t' + E + b'[L' + E + b'[M' + E + b'[3@' + E + b'[ @' + E + b'[ A' + b'A' + E + b'[3b' + E + b'[4hBC' + E + b'M' + E + b'E') + E + b'[1*z' + E + b'[1*z'
     for emu in tg.ANSI_BASED:
         meta.append((emu, 0, 80, 25, KNOWN_INPUTS[0][2], ['macro-replay', 'macro-self']))
         meta.append((emu, 0, 80, 25, chain, ['macro-replay', 'macro-chain-6']))
         meta.append((emu, 0, 80, 25, far, ['macro-replay', 'macro-resize-far']))
+        for b, name in DEEP_INPUTS:
+            meta.append((emu, 0, 80, 25, b, ['macro-replay', name]))
     return meta
 
 LEDGER = [(0, 0, E + b']8;;' + E + b'\\', 'osc8-empty'), (0, 0, E + b']4;;rgb:00/00/00' + E + b'\\', 'osc4-noindex'), (0, 0, E + b'[0;0r' + E + b'[M', 'neg-margin-DL'),
@@ -225,7 +232,20 @@ LEDGER = [(0, 0, E + b']8;;' + E + b'\\', 'osc8-empty'), (0, 0, E + b']4;;rgb:00
 # repaired in the merged tree by other properties' commits (09bc4f1 fill character, 952a970 .. 2141fac BitFont loaders): regression cases
 LEDGER += [(0, 0, E + b'[55296;1;1;2;2$x', 'fill-surrogate'), (0, 0, E + b'PCTerm:Font:0:' + E + b'\\', 'font-short'),
            (1, 0, b'\x16\x08\xf0\xf0' + b'\x16\x08\0\0' + b'\x16\x08\x03\x02', 'avatar-goto')] + [(0, 0, b, n) for b, n in FONT_STREAMS]
+# the former known class C01-stackoverflow:invoke_macro_by_id (repaired by 2513579: MAX_MACRO_NESTING): regression cases
 KNOWN_INPUTS = [(0, 0, E + b'P1;0;1!z1B5B312A7A' + E + b'\\' + E + b'[1*z', 'macro-self')]
+def macro_chain(n, leaf=b'A'):
+    """macro 1 = leaf, macro k = `<k> ESC [ k-1 * z`: invoking macro n nests n deep"""
+    return b''.join(hexmacro(i, leaf if i == 1 else (b'%d' % (i % 10)) + E + b'[%d*z' % (i - 1) + b'.') for i in range(1, n + 1))
+DEEP_INPUTS = [(macro_chain(n) + E + b'[%d*z' % n + b'!' + E + b'[%d*z' % (n - 1), 'macro-chain-%d' % n) for n in (15, 16, 17, 18, 40)] + [
+    (hexmacro(1, (b'a' + E + b'[1*z') * 4) + E + b'[1*z' + b'B', 'macro-self-fanout4'),                       # 4^16 replays if the error did not end the chain
+    (E + b'P1;0;1!z!9;41' + (E + b'[1*z').hex().upper().encode() + b';' + E + b'\\' + E + b'[1*z', 'macro-self-repeat9'),
+    (hexmacro(1, b'x' + E + b'[2*z' + b'X') + hexmacro(2, b'y' + E + b'[1*z' + b'Y') + E + b'[2*z' + E + b'[1*z', 'macro-mutual'),
+    (hexmacro(1, b'x' + E + b'[2*z') + hexmacro(2, b'y' + E + b'[3*z') + hexmacro(3, E + b'[8;4;9t' + E + b'[1*z') + E + b'[1*z' + b'\n' + E + b'[3*z', 'macro-cycle-3'),
+    (hexmacro(1, E + b'Pq' + E + b'[1*z' + b'r' + E + b'\\') + E + b'[1*z' + b'C' + E + b'\\' + b'D', 'macro-self-in-dcs'),   # the nested invocations are the ones inside a DCS string
+    (hexmacro(1, b'AB') + hexmacro(2, E + b'[1*z' + E + b'[9*z' + E + b'[1*z') + E + b'[2*z', 'macro-unknown-id'),
+    (hexmacro(1, E + b'[1*z') + E + b'[1*z' * 3 + E + b'c' + E + b'[1*z', 'macro-self-then-ris')]
+LEDGER += KNOWN_INPUTS + [(0, 0, b, n) for b, n in DEEP_INPUTS]
 
 def norm_impl(r):
     if r[0] == 'ok': return r[1]
@@ -250,7 +270,7 @@ def correspondence(ctx):
         b = b[:ctx.rng.choice([40, 120, 250])]          # the Coq side evaluates these
         b = re.sub(rb'(\d{2,})( ?[bSTPLMYZ@Ak])', lambda m: b'7' + m.group(2), b)
         meta.append((emu, music, w, h, b, names))
-    for emu, music, b, name in LEDGER + KNOWN_INPUTS:
+    for emu, music, b, name in LEDGER:
         meta.append((emu, music, 80, 25, b, [name]))
     # directed: every font DCS token followed by every font selection (which slots hold a font afterwards), the DECFRA fill characters
     allsel = b''.join(b for _, b in FONTSEL_TOKENS)
@@ -297,8 +317,6 @@ def correspondence(ctx):
         classes['percharacter-' + cls] = classes.get('percharacter-' + cls, 0) + 1
         if r[0] == 'ok':
             agree = (m == r[1])
-        elif r[0] == 'stackoverflow':
-            agree = bool(m) and m[-1:] == [-2]
         else:
             agree = False
         if not agree:
@@ -309,7 +327,7 @@ def correspondence(ctx):
             nontriv.add(c)
     return {'cases': len(cases) + len(tcases), 'disagreements': dis, 'distinct_nontrivial': len(nontriv),
             'distribution': {'outcome_classes': classes, 'extension_area_streams': area, 'model_errors': (merr + getattr(ctx, 'model_errors', [])[:2])[:2],
-                             'observation': 'n_actions n_errors first_error_index cx cy bw bh tw th nlines | panic | diverge; extension area: the 18-tuple of C09 after every character'},
+                             'observation': 'n_actions n_errors first_error_index cx cy bw bh tw th nlines | panic; extension area: the 18-tuple of C09 after every character'},
             'samples': [cases[0][:300], cases[-1][:300], tcases[0][:300]]}
 
 # ---- search --------------------------------------------------------------------------------------------------------------
@@ -372,8 +390,9 @@ def search(ctx, broken):
     for emu, music, b, name in LEDGER:
         for (w, h) in [(80, 25), (3, 2)]:
             cases.append('c01run %d %d %d %d %s' % (emu, music, w, h, tg.hx(b))); meta.append('ledger:' + name)
-    for emu, music, b, name in KNOWN_INPUTS:
-        cases.append('c01run %d %d 80 25 %s' % (emu, music, tg.hx(b))); meta.append('known:' + name)
+    for b, name in [(KNOWN_INPUTS[0][2], 'macro-self')] + DEEP_INPUTS:      # the repaired recursion through the four wrappers as well
+        for emu in tg.ANSI_BASED[1:]:
+            cases.append('c01run %d 0 80 25 %s' % (emu, tg.hx(b))); meta.append('ledger:' + name)
     n = min(ctx.n(3000, 25000), 25000)
     for i in range(n):
         emu = ctx.rng.choice([0, 0, 0, 0, 1, 2, 3, 4, 5, 6, 7, 8, 9])
@@ -425,16 +444,18 @@ def replay(ctx, body):
 LEVEL_TEXT = ('Machine-checked (Coq, closed under the global context) for ALL TEN emulations, streams of any length, screens 1..=132 x 1..=60: '
               '(a) c01_standalone: ASCII, ATASCII, Viewdata, Mode 7 - every stream ends in a state (every character an action or an error value); '
               '(b) c01_petscii: the same for PETSCII (Model/Petscii.v: print_char, handle_c128_escapes, handle_reverse_mode with the u8 overflow as an explicit site, update_shift_mode); '
-              '(c) c01_wrappers / c01_wrappers_no_panic: the ANSI parser and its Avatar, PCBoard, Ctrl-A and Renegade wrappers - every stream ends in a state or stops in the macro-nesting overflow, '
-              'and then the character at which it stops was processed with a macro stored; it NEVER panics, with no side condition on text-area resizes or stored macros: the proof runs on a weak invariant W '
-              '(sizes >= 1, origin mode never WithinMargins, margins 0 <= a <= b, tab stops >= 0, cursor coordinates >= 0) that survives CSI 8;h;w t and is kept by macro replay (induction on the nesting bound); '
-              '(d) c01_ansi_char: one character of ansi::Parser::print_char in EVERY EngineState, any macro table, any nesting bound, on any W state: action or error value on a W state; '
-              'macro_bound_is_only_a_bound: an outcome that is not the nesting overflow is the same for every larger bound (the bound of the model is not a semantic limit); c01_no_emulation_panics puts (a)-(c) into one statement; core_ops_never_panic and the earlier *_partial theorems are kept. '
-              'One class stays a known finding: unbounded macro recursion (stack overflow; model: Diverge beyond MACRO_FUEL = 32) - the theorems show it is the only failure left. '
-              'Nine fix: commits remove the panics of the ledger (OSC 8, OSC 4, margin validation, SL/SR, music index, music arithmetic, cursor-motion overflow; DECFRA fill character by C10, BitFont loaders by C17).')
+              '(c) c01_wrappers / c01_wrappers_no_panic: the ANSI parser and its Avatar, PCBoard, Ctrl-A and Renegade wrappers - every stream ends in a state, '
+              'with no side condition on text-area resizes or stored macros: the proof runs on a weak invariant W '
+              '(sizes >= 1, origin mode never WithinMargins, margins 0 <= a <= b, tab stops >= 0, cursor coordinates >= 0) that survives CSI 8;h;w t and is kept by macro replay (induction on the nesting budget); '
+              '(d) c01_ansi_char: one character of ansi::Parser::print_char in EVERY EngineState, any macro table, any value of the nesting counter, on any W state: action or error value on a W state; '
+              'c01_every_stream_ends / c01_no_emulation_panics put (a)-(c) into one statement: every stream of every emulation yields actions and error values only, no exception. '
+              'Macro invocations nest at most MAX_MACRO_NESTING = 16 deep (fix 2513579; the constant is read from the source by the translator, which also pins the counter discipline of invoke_macro_by_id): the model\'s recursion budget IS that counter, '
+              'a deeper invocation is the error value MacroNestingTooDeep that ends the whole chain of replays. macro_limit_only_cuts: an outcome that is not that error is the same for every larger limit (= the code before the fix); '
+              'macro_recursion_reaches_every_limit: the former known input nests to every limit (the old stack overflow, as a statement about the same model). core_ops_never_panic and the earlier *_partial theorems are kept. '
+              'No known crash class is left. Ten fix: commits remove the panics of the ledger (OSC 8, OSC 4, margin validation, SL/SR, music index, music arithmetic, cursor-motion overflow, macro nesting limit; DECFRA fill character by C10, BitFont loaders by C17).')
 LEVEL_NOTE = ('Trusted: Coq kernel + vm_compute; hand models tied to the Rust code by per-stream outcome comparison and per-character state comparison (stage C; via C09 for resize-free streams, '
               'in C01 for post-resize states, macro replay and PETSCII); the base64 decoder model (external crate) tied by stage C; worker classification of aborts/stack overflows/timeouts. '
               'Row counters are unbounded in the model (2^31 rows are the resource domain of C03). Resource bounds (time, memory) are C03, not C01.')
 TECHNIQUE = ('Coq proof: a weak invariant W preserved by every operation of the terminal core and sufficient for every res-valued operation to return a state; case analysis of every parser state '
-             'with the macro invoker abstracted (astep_gen_np), induction on the nesting bound for macro replay, a separate pass showing the macro table stays empty except at ESC \\ (Avatar repeat), '
+             'with the macro invoker abstracted (astep_gen_np), induction on the nesting budget (= MAX_MACRO_NESTING minus the counter of the code) for macro replay, monotonicity of the outcome in the budget, '
              'totality of the font loader model, induction over streams; differential outcome classes and per-character observations; crash search with signatures by enclosing function')
